@@ -670,7 +670,11 @@ def h2_obs(d, srv):
     if not st:
         return {"status": 0, "headers": [], "body": b"", "complete": False, "rst": d["rst"]}
     # a RST_STREAM(NO_ERROR) after a complete response (request body not wanted) is connection management
-    return make_obs(int(st[0]), d["headers"], d["body"], srv, ended=d["end"])
+    try:
+        code = int(st[0])
+    except ValueError:
+        code = -1          # (malformed :status: compared as such)
+    return make_obs(code, d["headers"], d["body"], srv, ended=d["end"], extra=None if code >= 0 else {"raw_status": repr(st[0])})
 
 
 # =====================================================================================
@@ -918,7 +922,7 @@ def run_case(srv, case):
         return o, log, None
     except Unanswered as ex:
         return None, log, str(ex)
-    except (OSError, e2e.RespParseError, RuntimeError) as ex:
+    except Exception as ex:                 # malformed answer the client cannot digest: counts as unanswered
         return None, log, "client error: %r" % (ex,)
 
 
@@ -1154,6 +1158,12 @@ class ResetOracle:
                     want["civ"] = tok.split("=", 1)[1]
                 if tok.startswith("h2r.po="):
                     want["po"] = tok.split("=", 1)[1]
+            cc = base["cc"].split(",")
+            for tok in t[2:]:
+                if tok.startswith("h2r.cc="):
+                    i, a, b = tok.split("=", 1)[1].split(":")
+                    cc[int(i)] = "%s:%s" % (a, b)
+            want["cc"] = ",".join(cc)
             for k, v in want.items():
                 if d.get(k) != v:
                     return "HTTP/2 stream does not inherit %s from the connection request" % k
@@ -1541,7 +1551,7 @@ def run_e2e(ctx):
     sshards = [seqs[i::nsrv] for i in range(nsrv)]
     with ThreadPoolExecutor(nsrv) as ex:
         results = list(ex.map(lambda a: server_job(bd, a[0], a[1], ctx.quick), zip(shards, sshards)))
-    ncase = nun = 0
+    ncase = nun = nhist_sig = 0
     seen_sig = set()
     for si, res in enumerate(results):
         if res["error"]:
@@ -1616,6 +1626,10 @@ def run_e2e(ctx):
                     if sig in seen_sig:
                         continue
                     seen_sig.add(sig)
+                    nhist_sig += 1
+                    if nhist_sig > 8 and not any(k.get("property") == ctx.pid and k.get("status") == "known"
+                                                 and re.search(k["match"], sig) for k in ctx.known):
+                        continue          # (same run, many symptoms: keep the report readable)
                     ctx.violation(sig, "response depends on connection history (%s, %s; differs in %s): %s" % (
                                       ["HTTP/1.0", "HTTP/1.1", "HTTP/2"][case["ver"]], case["mode"], dc, obs_diff(ref, o)),
                                   {"property": ctx.pid, "kind": "e2e-metamorphic", "case": case_desc(case), "log": log,
